@@ -94,3 +94,21 @@ package trustpolicy
 //@ func validatePolicyCore
 //@ props C09
 //@ ensures[C09.core] result == nil ==> coreOK(name, signatureVerification, trustStores, trustedIdentities)
+
+// ---- registry scopes (C08, C09) ----
+
+//@ opaque func domainOK(d string) bool = in_re(d, "^(?:[a-zA-Z0-9]|[a-zA-Z0-9][a-zA-Z0-9-]*[a-zA-Z0-9])(?:(?:\\.(?:[a-zA-Z0-9]|[a-zA-Z0-9][a-zA-Z0-9-]*[a-zA-Z0-9]))+)?(?::[0-9]+)?$")
+//@ opaque func repositoryOK(r string) bool = in_re(r, "^[a-z0-9]+(?:(?:(?:[._]|__|[-]*)[a-z0-9]+)+)?(?:(?:/[a-z0-9]+(?:(?:(?:[._]|__|[-]*)[a-z0-9]+)+)?)+)?$")
+//@ pure func scopeFormatOK(scope string) bool = !(len(scope) > 1 && contains(scope, "*")) && cutFound(scope, "/") && cutBefore(scope, "/") != "" && cutAfter(scope, "/") != "" && domainOK(cutBefore(scope, "/")) && repositoryOK(cutAfter(scope, "/"))
+
+//@ func validateRegistryScopeFormat
+//@ props C08 C09
+//@ ensures[C09.scope-format] (result == nil) == scopeFormatOK(scope)
+
+//@ func getArtifactPathFromReference
+//@ props C08
+//@ ensures[C08.path] result1 == nil ==> contains(artifactReference, "@") && result == lastBefore(artifactReference, "@") && scopeFormatOK(result)
+//@ ensures result1 != nil ==> result == ""
+
+// a valid domain / repository contains none of the characters that could make two different references select the same scope
+//@ lemma[C08.scope-charset] forall(d, string, forall(r, string, domainOK(d) && repositoryOK(r) ==> !in_re(d + "/" + r, "[@* ]") && !in_re(r, "[A-Z:]")))
